@@ -66,6 +66,7 @@ type muxOp struct {
 	af       *ref.AF
 	strayOpt bool // hand an optional header struct to the Muxer although the stream id (0xBE/0xBF) has none
 	churn    int  // opChurn: number of add/remove cycles
+	reuseMD  bool // hand over the MuxerData struct of an earlier WriteData on the same PID (refilled), as a caller that keeps one per stream would
 	reuseAF  bool // hand over the adaptation field struct (same pointer, same content) of the previous successful WriteData that had one
 	// Packet
 	pkt *astits.Packet
@@ -231,6 +232,7 @@ func drawMuxOp(t *rapid.T, prof muxProfile) muxOp {
 		drawMuxPayload(t, prof, op.pes, afSize)
 		op.strayOpt = gen.Bool(t, "strayopt")
 		op.reuseAF = gen.Chance(t, 30, "reuseaf")
+		op.reuseMD = gen.Chance(t, 40, "reusemd")
 	case opPacket:
 		m := gen.TSPacket(t, "wp")
 		m.PID = 0x1f00 + uint16(rapid.IntRange(0, 15).Draw(t, "wppid"))
@@ -260,6 +262,14 @@ func drawMuxOp(t *rapid.T, prof muxProfile) muxOp {
 			// short payload: padded by the writer
 			if op.pkt.Header.HasPayload && len(op.pkt.Payload) > 1 {
 				op.pkt.Payload = op.pkt.Payload[:rapid.IntRange(0, len(op.pkt.Payload)-1).Draw(t, "wpshort")]
+			}
+		case 3:
+			// a reused struct turned into a packet without payload: the bytes left in Payload are not part of the packet
+			if !op.pkt.Header.HasPayload {
+				op.pkt.Payload = gen.Bytes(t, rapid.IntRange(1, 60).Draw(t, "wpstray"), "wpstrayb")
+				if af := op.pkt.AdaptationField; af != nil && gen.Bool(t, "wpstraynostuff") {
+					af.StuffingLength = 0 // the caller leaves the filling of the packet to the writer
+				}
 			}
 		}
 	}
@@ -478,6 +488,7 @@ func runMuxHistoryUnguarded(period int, setPeriod bool, ops []muxOp, w *writerSp
 	gens := map[uint16]int{}
 	var replay []func(*astits.Muxer)
 	predAuto := uint16(0x100)
+	keptMD := map[uint16]*astits.MuxerData{}
 	var lastAF *astits.PacketAdaptationField
 	var gone []uint16 // PIDs removed so far (a later Add may have brought one back: target() then reports it as known)
 	var lastAFModel *ref.AF
@@ -576,6 +587,12 @@ func runMuxHistoryUnguarded(period int, setPeriod bool, ops []muxOp, w *writerSp
 			st.pes, st.af = op.pes, af
 			st.payloadLen = len(op.pes.Payload)
 			d := &astits.MuxerData{PID: pid, PES: conv.PESStruct(op.pes, false, op.pes.Payload, 0)}
+			if kept := keptMD[pid]; kept != nil && op.reuseMD {
+				kept.PES, kept.AdaptationField = d.PES, nil
+				d = kept
+			} else if op.reuseMD {
+				keptMD[pid] = d
+			}
 			if !hasOptHeaderLib(op.pes.StreamID) {
 				d.PES.Header.OptionalHeader = nil
 				if op.strayOpt {
